@@ -23,8 +23,10 @@ def cases(run: Run):
     rng = run.rng
     out = list(corpus(PID))
     for _ in range(run.n(3, 20)):
+        steps = rng.randint(3, 7)
         out.append({
-            "dt": rng.choice([60, 60, 30]), "steps": rng.randint(3, 5), "ns": rng.randint(1, 2), "nt": rng.randint(2, 3), "prop": rng.choice(["two_body", "special_perturbations"]),
+            "imp_k": rng.randint(1, steps - 1), "split_at_impulse": rng.random() < 0.6,
+            "dt": rng.choice([60, 60, 30]), "steps": steps, "ns": rng.randint(1, 2), "nt": rng.randint(2, 3), "prop": rng.choice(["two_body", "special_perturbations"]),
             "start_sec": rng.choice([0, 17]), "seed": rng.randint(1, 10**6), "impulse": rng.random() < 0.6,
             "variants": rng.sample(["truth_only", "greedy", "noise_seed", "out2", "split", "order", "extra_target", "extra_sensor", "fewer_targets", "random_decision", "filter_model", "filter_model", "no_additions",
                                     "drop_first", "drop_first", "reorder"], run.n(7, 10)),
@@ -67,8 +69,8 @@ def build(c, v):
     eng = [scen.engine_cfg(1, targets, sensors, decision=decision, seed=5)]
     events = []
     if c["impulse"] and 1 in tids:  # the manoeuvring target is the second one; a variant that leaves it out has no such event
-        events.append({"scope": "agent_propagation", "scope_instance_id": 10002, "start_time": scen.iso(start + timedelta(seconds=c["dt"] * 2)),
-                       "end_time": scen.iso(start + timedelta(seconds=c["dt"] * 2)), "event_type": "impulse", "thrust_vector": [0.0, 0.01, 0.0], "thrust_frame": "ntw", "planned": False})
+        events.append({"scope": "agent_propagation", "scope_instance_id": 10002, "start_time": scen.iso(start + timedelta(seconds=c["dt"] * c.get("imp_k", 2))),
+                       "end_time": scen.iso(start + timedelta(seconds=c["dt"] * c.get("imp_k", 2))), "event_type": "impulse", "thrust_vector": [0.0, 0.01, 0.0], "thrust_frame": "ntw", "planned": False})
     # targets that join at run time (scenario-step events): their truth must not depend on estimation settings either
     for j in range(c.get("additions", 0) if v != "no_additions" else 0):
         lat, lon = [(3.0, -1.0), (-2.0, 5.0)][j]
@@ -116,7 +118,9 @@ def run_variant(c, v):
         if v == "split":
             # consecutive propagateTo calls of uneven length instead of single steps
             k = 0
-            for chunk in (1, 2, c["steps"]):
+            # ... one of the calls ends exactly at the instant of the impulse, when there is one
+            ik = c.get("imp_k", 2)
+            for chunk in ((ik, c["steps"]) if (c.get("impulse") and c.get("split_at_impulse")) else (1, 2, c["steps"])):
                 k = min(c["steps"], k + chunk)
                 before = int(round(float(app.clock.time) / c["dt"]))
                 app.propagateTo(JulianDate(ScenarioTime(float(k * c["dt"])).convertToJulianDate(jd0)))
